@@ -22,7 +22,14 @@ def _enc_val(n):
     """blob values of three kinds (object / text / bytes: three different codecs), all decoded back to the number"""
     if n is None:
         return None
-    return [Obj(n), "s%d" % n, ("b%d" % n).encode()][n % 3]
+    # texts and byte strings carry line ends of every kind and a non-ASCII character: what comes back must be the very same
+    # characters / bytes (no newline translation, no re-encoding)
+    tail = ["", "\r\n", "\r", "\n\u00e9"][(n // 3) % 4]
+    return [Obj(n), "s%d%s" % (n, tail), ("b%d%s" % (n, tail)).encode("utf-8")][n % 3]
+
+
+def _tail(n):
+    return ["", "\r\n", "\r", "\n\u00e9"][(n // 3) % 4]
 
 
 def _dec_val(v):
@@ -30,10 +37,15 @@ def _dec_val(v):
         return None
     if isinstance(v, Obj):
         return v.n
+    import re
     if isinstance(v, str) and v[:1] == "s":
-        return int(v[1:])
-    if isinstance(v, (bytes, bytearray)) and v[:1] == b"b":
-        return int(bytes(v[1:]).decode())
+        m = re.match(r"s(-?\d+)", v)
+        if m and v == "s%s%s" % (m.group(1), _tail(int(m.group(1)))):
+            return int(m.group(1))
+    if type(v) is bytes and v[:1] == b"b":
+        m = re.match(rb"b(-?\d+)", v)
+        if m and v == ("b%s%s" % (m.group(1).decode(), _tail(int(m.group(1))))).encode("utf-8"):
+            return int(m.group(1))
     return "UNDECODABLE:%r" % (v,)
 
 
